@@ -1477,6 +1477,95 @@ pub(crate) struct RelayRecvDatagram {
     pub(crate) datagrams: Datagrams,
 }
 
+/// A real [`ActiveRelayActor`] started stand-alone for the external verification harness
+/// (pass-through only: the actor, its options and its messages are unchanged).
+#[cfg(feature = "verif-hooks")]
+pub(crate) mod verif_active {
+    use super::*;
+
+    /// Handle to a running [`ActiveRelayActor`] that publishes into a caller-supplied
+    /// [`HomeRelayWatch`].
+    #[derive(Debug)]
+    pub(crate) struct VerifActiveRelay {
+        inbox: mpsc::Sender<ActiveRelayMessage>,
+        datagrams: mpsc::Receiver<RelayRecvDatagram>,
+        _prio: mpsc::Sender<ActiveRelayPrioMessage>,
+        _send: mpsc::Sender<RelaySendItem>,
+        stop: CancellationToken,
+        task: Option<n0_future::task::JoinHandle<()>>,
+    }
+
+    impl VerifActiveRelay {
+        /// Spawns the actor for `url` on the current tokio runtime.
+        pub(crate) fn spawn(
+            url: RelayUrl,
+            my_relay: HomeRelayWatch,
+            secret_key: SecretKey,
+            tls_config: rustls::ClientConfig,
+        ) -> Self {
+            let (datagram_recv_tx, datagram_recv_rx) = mpsc::channel(64);
+            let (send_datagram_tx, send_datagram_rx) = mpsc::channel(16);
+            let (prio_inbox_tx, prio_inbox_rx) = mpsc::channel(8);
+            let (inbox_tx, inbox_rx) = mpsc::channel(16);
+            let stop = CancellationToken::new();
+            let opts = ActiveRelayActorOptions {
+                url,
+                prio_inbox_: prio_inbox_rx,
+                inbox: inbox_rx,
+                relay_datagrams_send: send_datagram_rx,
+                relay_datagrams_recv: datagram_recv_tx,
+                connection_opts: RelayConnectionOptions {
+                    secret_key,
+                    #[cfg(not(wasm_browser))]
+                    dns_resolver: DnsResolver::new(),
+                    proxy_url: None,
+                    prefer_ipv6: Arc::new(AtomicBool::new(false)),
+                    tls_config,
+                    auth_token: None,
+                },
+                stop_token: stop.clone(),
+                metrics: Default::default(),
+                my_relay,
+            };
+            let task = n0_future::task::spawn(ActiveRelayActor::new(opts).run());
+            Self {
+                inbox: inbox_tx,
+                datagrams: datagram_recv_rx,
+                _prio: prio_inbox_tx,
+                _send: send_datagram_tx,
+                stop,
+                task: Some(task),
+            }
+        }
+
+        /// Enqueues `SetHomeRelay(is_home)` as the `RelayActor` does; false if the inbox is full.
+        pub(crate) fn try_set_home_relay(&self, is_home: bool) -> bool {
+            self.inbox
+                .try_send(ActiveRelayMessage::SetHomeRelay(is_home))
+                .is_ok()
+        }
+
+        /// Whether every enqueued inbox message has been taken out by the actor.
+        pub(crate) fn inbox_drained(&self) -> bool {
+            self.inbox.capacity() == self.inbox.max_capacity()
+        }
+
+        /// Next datagram batch the actor received from its relay server: `(source, length)`.
+        pub(crate) async fn recv_datagram(&mut self) -> Option<(EndpointId, usize)> {
+            let d = self.datagrams.recv().await?;
+            Some((d.src, d.datagrams.contents.len()))
+        }
+
+        /// Stops the actor and waits for its task.
+        pub(crate) async fn stop(mut self) {
+            self.stop.cancel();
+            if let Some(task) = self.task.take() {
+                task.await.ok();
+            }
+        }
+    }
+}
+
 #[cfg(test)]
 mod tests {
     use std::{
